@@ -154,7 +154,8 @@ RULES = [
      lambda f: f.st == 'reparse-fail' and re.search(r'(?i)index match for[^\s]', f.p1)),
     ('config-reset-filter-missing-space',
      lambda f: f.st == 'reparse-fail' and f.has('ConfigReset') and any(
-         isinstance(n, f.ql.ConfigReset) and n.where is not None for n in f.nodes)),
+         isinstance(n, f.ql.ConfigReset) and n.where is not None for n in f.nodes)
+     and re.search(r'(?i)[^\s]filter\b', f.p1)),
     ('ddl-function-using-sql-expression-dropped',
      lambda f: f.st == 'reparse-fail' and f.has('CreateFunction', 'AlterFunction') and any(
          getattr(getattr(n, 'code', None), 'from_expr', False) for n in f.nodes)),
@@ -196,7 +197,8 @@ RULES = [
     ('ddl-drop-branch-force-dropped',
      lambda f: f.st == 'ast-diff' and f.has('DropDatabase', 'AlterDatabase') and re.search(r'\.force: True != False', f.diff)),
     ('ddl-ext-package-migration-to-version-keyword',
-     lambda f: f.st == 'reparse-fail' and f.has('DropExtensionPackageMigration', 'CreateExtensionPackageMigration')),
+     lambda f: f.st == 'reparse-fail' and f.has('DropExtensionPackageMigration', 'CreateExtensionPackageMigration')
+     and not re.search(r'(?i)\bto\s+version\b', f.p1)),
     ('describe-object-class-keyword-dropped',
      lambda f: f.st == 'reparse-fail' and any(
          isinstance(n, f.ql.DescribeStmt) and isinstance(n.object, f.ql.ObjectRef) for n in f.nodes)),
@@ -211,11 +213,12 @@ RULES = [
                'DropConcreteConstraint', 'DropConcreteIndex')),
     ('nested-body-text-reindents-multiline-literals',
      lambda f: f.st == 'ast-diff' and f.has('CreateMigration', 'CreateExtensionPackage', 'CreateExtensionPackageMigration')
-     and re.search(r'body\.commands', f.diff) and '\\n' in f.diff),
+     and re.search(r'body\.commands', f.diff) and re.search(r"(value|name): '", f.diff)),
     ('name-unquoted-fuses-with-keyword',
      lambda f: f.st == 'reparse-fail' and any(
          isinstance(n, (f.ql.CreateExtension, f.ql.AlterExtension, f.ql.DropExtension)) and n.name.name.lower() == 'package'
          or isinstance(n, f.ql.SetField) and not n.special_syntax and n.name.lower() in ('type', 'annotation')
+         or isinstance(n, (f.ql.ConfigSet, f.ql.ConfigReset)) and n.name.name.lower() in ('type', 'annotation')
          for n in f.nodes)),
     ('ddl-statement-argument-unparenthesised',
      lambda f: f.st == 'reparse-fail' and re.search(r"Unexpected keyword '(FOR|GROUP|SELECT|INSERT|UPDATE|DELETE|WITH)'", f.err)
